@@ -3,8 +3,8 @@
  (1) TLC, exhaustive: spec/Wire.tla transcribes every to_dict / from_dict / to_json_dict / from_json_dict of
      lambda_service.py and execution.py field by field (truthiness tests included) over abstract leaf domains and
      enumerates every instance of 13 slices (presence / emptiness / enum structure).  Invariants:
-     Lossless \\/ Known, UpdateCarriesOptions, and "the named scenarios characterise the losses exactly";
-     probe configs show each named scenario is still reachable.
+     Lossless (repaired variant; Lossless \\/ Known on the pinned original), UpdateCarriesOptions, and "the named
+     scenarios characterise the losses exactly"; probe configs show each named scenario reachable in the original.
  (2) Binding G: the same run in dump mode prints every abstract instance with the model's wire forms and its
      prediction (which leaves are lost by which round trip).  Every instance is concretised from fixed leaf pools,
      pushed through the REAL codecs and compared (i) with the model (wire shape token by token, lost leaves),
@@ -14,8 +14,11 @@
      decode-side losses and covers the decode-only classes (StateOutput, CheckpointOutput, ...).
  (3) Seeded random instances (random presence, random leaves, random timestamps in four eras and six offsets).
 
-Known deviations of the code and their signatures: context-details-dropped, epoch0-timestamp, ms-rounding,
-far-future-us-drift, chained-invoke-empty-dict.  Anything else is reported under a precise signature (model-mismatch, field-dropped:<C>.<f>,
+Wire.tla has two variants (CONSTANT Fixed): the code as repaired and the pinned original with the five named deviations
+context-details-dropped, epoch0-timestamp, ms-rounding, far-future-us-drift, chained-invoke-empty-dict.  spec/variant.json
+("WireFixed") selects the variant the REAL code is compared with; with the repaired variant Lossless has no escape, and the
+five signatures are reported only if the real code shows them again.  The pinned original is kept as a regression of the
+model: five probe configs (Fixed = FALSE) must still be violated.  Anything else is reported under a precise signature (model-mismatch, field-dropped:<C>.<f>,
 field-altered:<C>.<f>, tz-offset-altered, timestamp-altered:<C>.<f>, option-not-carried:<factory>.<opt>,
 unequal-object:<C>, codec-exception:<C>.<method>).
 """
@@ -23,12 +26,17 @@ from __future__ import annotations
 
 import datetime as D
 import json
+import os
 import random
+import re
 import time
 from concurrent.futures import ThreadPoolExecutor
 
 from harness import wire_vectors as W
-from lib.tlcrun import MachineryError, require_ok, run_tlc
+from lib.tlcrun import SPEC_DIR, MachineryError, require_ok, run_tlc, work_dir
+
+# which variant of Wire.tla stands for the code as it is now (TRUE = repaired, FALSE = pinned original with K1..K5)
+FIXED = bool(json.load(open(os.path.join(SPEC_DIR, "variant.json"))).get("WireFixed", False))
 
 SIG_K1, SIG_K2, SIG_K3, SIG_K4 = "context-details-dropped", "epoch0-timestamp", "ms-rounding", "far-future-us-drift"
 SIG_K5 = "chained-invoke-empty-dict"
@@ -40,40 +48,57 @@ CODECS = ("dict", "json", "idict", "ijson")
 
 
 # ------------------------------------------------------------------------------------------------ (1) TLC
-def _tlc(cfg, name, timeout_s):
-    return run_tlc("Wire", cfg, name, workers=1, timeout_s=timeout_s, coverage=False, java_opts=JAVA)
+def _tlc(cfg, name, timeout_s, fixed):
+    """Run Wire.tla with spec/<cfg>, its `CONSTANT Fixed` line replaced by `fixed`."""
+    text = open(os.path.join(SPEC_DIR, cfg)).read()
+    text, n = re.subn(r"CONSTANT Fixed = \w+", "CONSTANT Fixed = " + ("TRUE" if fixed else "FALSE"), text)
+    if n != 1:
+        raise MachineryError(f"{cfg}: no 'CONSTANT Fixed' line")
+    path = os.path.join(work_dir(name), "gen.cfg")
+    with open(path, "w") as f:
+        f.write(text)
+    return run_tlc("Wire", path, name, workers=1, timeout_s=timeout_s, coverage=False, java_opts=JAVA)
 
 
 def tlc_part(ctx):
-    jobs = {"dump": ("Wire_dump.cfg", "c20-dump", 900)}
-    jobs["check"] = ("Wire_all.cfg", "c20-all", 900) if ctx.quick else ("Wire_check.cfg", "c20-check", 1800)
+    var = "repaired" if FIXED else "original"
+    jobs = {"dump": ("Wire_dump.cfg", "c20-dump", 900, FIXED)}
+    jobs["check"] = ("Wire_all.cfg", "c20-all", 900, FIXED) if ctx.quick else ("Wire_check.cfg", "c20-check", 1800, FIXED)
+    if FIXED and not ctx.quick:        # model regression: the pinned original still satisfies Lossless \/ Known exactly
+        jobs["orig"] = ("Wire_all.cfg", "c20-all-original", 900, False)
     for cfg, _inv, sig in PROBES:
-        jobs["probe:" + sig] = (cfg, "c20-" + cfg[5:-4], 300)
-    with ThreadPoolExecutor(max_workers=7) as ex:
+        jobs["probe:" + sig] = (cfg, "c20-" + cfg[5:-4], 300, False)
+    with ThreadPoolExecutor(max_workers=8) as ex:
         futs = {k: ex.submit(_tlc, *v) for k, v in jobs.items()}
         res = {k: f.result() for k, f in futs.items()}
     chk = res["check"]
     require_ok(chk, "checking Wire.tla")
-    ctx.add_tlc(chk, "Wire.tla exhaustive: every abstract instance of 13 slices; Lossless \\/ Known, UpdateCarriesOptions, KnownExact",
-                exhaustive=True)
+    ctx.add_tlc(chk, f"Wire.tla ({var} variant) exhaustive: every abstract instance of 13 slices; Lossless"
+                + ("" if FIXED else " \\/ Known") + ", UpdateCarriesOptions, KnownExact", exhaustive=True)
     if not chk.ok and ctx.quick:       # name the violated property
-        chk = _tlc("Wire_check.cfg", "c20-check", 1800)
+        chk = _tlc("Wire_check.cfg", "c20-check", 1800, FIXED)
         require_ok(chk, "checking Wire.tla (named invariants)")
     if not chk.ok:
-        ctx.violation("model-" + str(chk.violated), f"TLC: {chk.violated} violated in Wire.tla: an abstract instance loses a leaf that no "
-                      f"named scenario explains", {"kind": "tlc", "trace": chk.trace[-2:]})
+        ctx.violation("model-" + str(chk.violated), f"TLC: {chk.violated} violated in Wire.tla ({var} variant): an abstract instance loses a "
+                      f"leaf" + ("" if FIXED else " that no named scenario explains"), {"kind": "tlc", "trace": chk.trace[-2:]})
+    if "orig" in res:
+        r = res["orig"]
+        require_ok(r, "checking Wire.tla (pinned original)")
+        ctx.add_tlc(r, "Wire.tla (pinned original variant): Lossless \\/ Known, KnownExact - model regression")
+        if not r.ok:
+            raise MachineryError(f"pinned original variant of Wire.tla violates {r.violated}: Known(x) is stale; see {r.out_path}")
     for cfg, inv, sig in PROBES:
         r = res["probe:" + sig]
         require_ok(r, "probe " + cfg)
-        ctx.add_tlc(r, f"probe {inv} (must be violated: scenario {sig} reachable)")
+        ctx.add_tlc(r, f"probe {inv} on the pinned original (must be violated: scenario {sig} reachable)")
         if r.ok or r.violated != inv:
             raise MachineryError(f"probe {cfg}: expected {inv} to be violated (scenario {sig}); got ok={r.ok} violated={r.violated}. "
-                                 f"Known(x) in Wire.tla is stale.")
+                                 f"The pinned-original variant of Wire.tla no longer shows the deviation.")
     dump = res["dump"]
     require_ok(dump, "dumping Wire.tla")
     if not dump.ok:
         raise MachineryError(f"dump run failed: {dump.violated}; see {dump.out_path}")
-    ctx.add_tlc(dump, "Wire.tla table generation (dump mode)")
+    ctx.add_tlc(dump, f"Wire.tla ({var} variant) table generation (dump mode)")
     rows = []
     for line in dump.printed:
         if line.startswith('"{'):
@@ -81,6 +106,7 @@ def tlc_part(ctx):
     if len(rows) != dump.distinct or not rows:
         raise MachineryError(f"dump: {len(rows)} rows parsed but {dump.distinct} states; see {dump.out_path}")
     ctx.notes["tlc_rows"] = len(rows)
+    ctx.notes["wire_variant"] = {"WireFixed": FIXED}
     return rows
 
 
